@@ -110,6 +110,7 @@ func runC10(em *vEmitter, r *vRng) {
 	// and without a hooks directory
 	c10Reloads(em, r)
 	c10FdExhaustion(em, r)
+	c10ReloadDuringHookRound(em, r)
 	// a backlog of logins that takes the dispatcher many seconds to work off (expensive hashes): every
 	// one of them is answered, and the agent answers other requests afterwards
 	c10SlowBurst(em, r)
@@ -495,6 +496,66 @@ func c10FdExhaustion(em *vEmitter, r *vRng) {
 	syscall.Setrlimit(syscall.RLIMIT_NOFILE, &lim)
 	c := vCase{Prop: "C10", Kind: "load", Class: "env/fd-exhaustion", Nontrivial: true,
 		Human: map[string]interface{}{"rounds": rounds, "dials_refused_for_lack_of_descriptors": failedDials}}
+	if viol != "" {
+		c.Violation = viol
+	} else {
+		ms.cleanup()
+	}
+	em.emit(c)
+}
+
+// A reload signal that reaches the dispatcher WHILE the hook runner is in the middle of a round (many
+// hooks, so that starting a round takes a while; the reload follows the modification at once).  Whatever
+// the two goroutines share, every request kind must be answered afterwards, for several rounds.
+func c10ReloadDuringHookRound(em *vEmitter, r *vRng) {
+	ms := mNewStore("c10hr", r, 1)
+	ms.plant("root", true, 1, 1600000000, r.bytes(16), []byte("rootpw"), "")
+	hd := filepath.Join(ms.root, "hooks")
+	os.Mkdir(hd, 0755)
+	truebin := "/bin/true"
+	if _, err := os.Stat(truebin); err != nil {
+		truebin = "/usr/bin/true"
+	}
+	for i := 0; i < 300; i++ {
+		os.Symlink(truebin, filepath.Join(hd, fmt.Sprintf("h%03d", i)))
+	}
+	st, err := NewStore(ms.cfgfile, "", "", "", hd)
+	if err != nil {
+		panic(err)
+	}
+	api := st.GetInterface()
+	viol := ""
+	rounds := 0
+	for round := 0; round < 4 && viol == ""; round++ {
+		rounds++
+		calls := []struct {
+			name string
+			f    func()
+		}{
+			{"add", func() { api.Add(fmt.Sprintf("u%d", round), "pw", false) }},
+			{"reload+list", func() { syscall.Kill(os.Getpid(), syscall.SIGHUP); api.List() }},
+			{"authenticate", func() { api.Authenticate("root", "rootpw") }},
+			{"set-admin", func() { api.SetAdmin(fmt.Sprintf("u%d", round), true) }},
+			{"reload+check", func() { syscall.Kill(os.Getpid(), syscall.SIGHUP); api.Check() }},
+			{"remove", func() { api.Remove(fmt.Sprintf("u%d", round)) }},
+		}
+		for _, c := range calls {
+			done := make(chan struct{})
+			go func() { c.f(); close(done) }()
+			select {
+			case <-done:
+			case <-time.After(10 * time.Second):
+				viol = fmt.Sprintf("round %d: %s not answered within 10 s after a modification immediately followed by a reload signal, "+
+					"with 300 hooks configured (the reload met a hook round in progress): the agent is wedged", round+1, c.name)
+			}
+			if viol != "" {
+				break
+			}
+		}
+		time.Sleep(time.Duration(r.intn(40)) * time.Millisecond)
+	}
+	c := vCase{Prop: "C10", Kind: "load", Class: "load/reload-during-hook-round", Nontrivial: true,
+		Human: map[string]interface{}{"rounds": rounds, "hooks": 300}}
 	if viol != "" {
 		c.Violation = viol
 	} else {
